@@ -13,6 +13,7 @@
    behaves unless the scenario disturbs it. *)
 From Coq Require Import List ZArith Bool.
 From Ivv Require Import Misc.PopenModel Misc.PopenProofs.
+From Ivv Require Gen.LeafPopen Misc.PopenLink.
 Import ListNotations.
 Local Open Scope Z_scope.
 
@@ -38,6 +39,33 @@ Proof.
   exact (conj model_trace_accepted (conj model_trace_accepted_strict (conj escalation_accepted (conj esc_nth expected_sig_spec)))).
 Qed.
 Print Assumptions C19_escalation.
+
+(* THE ESCALATION DECISION OF THE MODEL IS THE CODE.  Gen/LeafPopen.v is regenerated on every run by gen/c2gallina.py from
+   the clang AST of the current src/iv_popen.c (macros expanded: MAX_SIGTERM_COUNT, SIGNAL_INTERVAL of the source, SIGTERM /
+   SIGKILL of <signal.h>), C integer semantics explicit (Base/CSem.v, None = signed overflow):
+   `signum = (ch->num_kills++ < MAX_SIGTERM_COUNT) ? SIGTERM : SIGKILL;` -> popen_signum : counter -> Some (signal, new counter),
+   `ch->signal_timer.expires.tv_sec += SIGNAL_INTERVAL;` -> popen_rearm_sec, `ch->num_kills = 0;` of the close -> popen_close_kills.
+   For every int counter whose increment does not overflow the translated statement yields the model's expected_sig and
+   counter + 1 (it is undefined exactly when the increment overflows: after 2^31 signals); the re-arm adds INTERVAL; the
+   model's timer handler logs the translated signal and stores the translated counter; the close stores the translated 0. *)
+Theorem C19_escalation_is_the_code :
+  (forall k, Ivv.Gen.LeafPopen.popen_signum k =
+             if Ivv.Base.CSem.c_in_s 32 (k + 1) then Some (expected_sig k, k + 1) else None) /\
+  (forall k, 0 <= k < 2 ^ 31 - 1 -> Ivv.Gen.LeafPopen.popen_signum k = Some (if k <? 5 then 15 else 9, k + 1)) /\
+  (forall sec nsec, - 2 ^ 63 <= sec + 5 < 2 ^ 63 ->
+     exists sec', Ivv.Gen.LeafPopen.popen_rearm_sec sec = Some sec' /\
+                  sec' * 1000000000 + nsec = (sec * 1000000000 + nsec) + INTERVAL) /\
+  (forall s sig k', p_rec s = true -> Ivv.Gen.LeafPopen.popen_signum (p_kills s) = Some (sig, k') ->
+     p_kills (timer_handler s) = k' /\
+     (p_dead s = false ->
+        p_log (timer_handler s) = PKill sig (p_now s) :: p_log s /\ p_timer (timer_handler s) = Some (p_now s + INTERVAL))) /\
+  (forall s, p_parent s = true -> p_reqchild s = true -> p_rec s = true ->
+     Some (p_kills (close s)) = Ivv.Gen.LeafPopen.popen_close_kills tt).
+Proof.
+  exact (conj Ivv.Misc.PopenLink.leaf_signum_all (conj Ivv.Misc.PopenLink.leaf_signum_values (conj Ivv.Misc.PopenLink.leaf_rearm
+        (conj Ivv.Misc.PopenLink.timer_handler_is_the_code Ivv.Misc.PopenLink.close_is_the_code)))).
+Qed.
+Print Assumptions C19_escalation_is_the_code.
 
 (* Once the termination of the child has been reaped (by any thread; before the close or between any two
    signals) no further signal is sent, whatever happens afterwards. *)
